@@ -1,0 +1,12 @@
+//go:build verif
+
+package base
+
+//@ props C07 C11
+
+// IsTimeoutError is the only guard implementing the exception "a write whose outcome is unknown because storage timed out
+// keeps its sequence" (its single caller is db.updateAndReturnDoc). Verified: it answers true exactly for a non-nil error
+// whose chain (errors.Is: Unwrap chain, Is methods) contains gocb.ErrTimeout or base.ErrTimeout. errIs is the verdict of
+// errors.Is (/verif/trusted/c09_import.spec).
+//@ func IsTimeoutError
+//@   ensures[spec] result <==> !isNilErr(err) && (errIs(err, box(gocb.ErrTimeout)) || errIs(err, box(ErrTimeout)))
